@@ -289,8 +289,16 @@ impl Scenario for Sc10 {
             // whose request is this? (code and body identify the call; identical calls share a tag)
             let who = self.calls.iter().position(|c| match c {
                 Call::Fe(op) => {
-                    let (bytes, _) = correct_request(op, F_VERSION, &s.res);
-                    op.code() == code && bytes[12..] == payload[..]
+                    let (mut bytes, _) = correct_request(op, F_VERSION, &s.res);
+                    let mut got = payload.clone();
+                    // bytes the specification leaves unspecified (struct padding) are don't-care
+                    for (a, b) in dont_care_ranges(op) {
+                        for k in a..b.min(bytes.len()).min(got.len() + 12) {
+                            bytes[k] = 0;
+                            got[k - 12] = 0;
+                        }
+                    }
+                    op.code() == code && bytes[12..] == got[..]
                 }
                 _ => false,
             });
